@@ -17,6 +17,7 @@ import GaleneVerif.Engine.Api
 import GaleneVerif.Engine.Rec
 import GaleneVerif.Engine.Streams
 import GaleneVerif.Engine.Sig
+import GaleneVerif.Engine.Whip
 /-
 Line-protocol driver.  usage: driver <engine> [oracle-only] < trace
 `oracle-only` (failing-input search): model/impl mismatches do not end the case;
@@ -100,7 +101,8 @@ def engines : List (String × EngineDef) :=
     ("rec", Galene.Engine.Rec.engine),
     ("streams", Galene.Engine.Streams.engine),
     ("sig", Galene.Engine.Sig.engine),
-    ("sigfixed", Galene.Engine.Sig.engineFixed) ]
+    ("sigfixed", Galene.Engine.Sig.engineFixed),
+    ("whip", Galene.Engine.Whip.engine) ]
 
 def main (args : List String) : IO UInt32 := do
   let (name?, oracleOnly) := match args with
